@@ -888,7 +888,7 @@ def main():
     L.append("].")
     L.append("Definition READER_UNKNOWN : N := %d." % d["reader_unknown"])
     L.append("Definition READER_ULL_IS_U64_CAST : bool := %s.   (* #define PRIMITIV_ULL(expr) static_cast<std::uint64_t>(expr) *)" % ("true" if d["ull_ok"] else "false"))
-    write_if_changed(OUT, "\n".join(L) + "\n")
+    d["written"] = [OUT] if write_if_changed(OUT, "\n".join(L) + "\n") else []
     c = d["checks"]
     cmt = lambda n: "(* note: %s *)" % n.replace("(*", "( *").replace("*)", "* )")
     C = ["(* GENERATED by translate/gen_io_headers.py from msgpack/reader.h -- do not edit *)",
@@ -898,22 +898,25 @@ def main():
          "Definition READER_READ : cstm := %s.   (* body of void read(char *ptr, std::size_t size) *)" % c["read"],
          "Definition READER_CHECK_TYPE : cstm := %s.   (* body of void check_type(std::uint8_t expected) *)" % c["check_type"],
          "Definition READER_STREAM_USERS : list suser := [%s].   (* member functions that mention is_ *)" % "; ".join(c["users"])]
-    write_if_changed(OUT_CHECKS, "\n".join(C) + "\n")
+    if write_if_changed(OUT_CHECKS, "\n".join(C) + "\n"):
+        d["written"].append(OUT_CHECKS)
     return d
 
 
 def write_if_changed(path, new):
-    """atomic (rename of a private temporary file); untouched when the content is the same"""
+    """atomic (rename of a private temporary file); untouched when the content is the same.
+    Returns whether the file had to be written."""
     os.makedirs(os.path.dirname(path), exist_ok=True)
     try:
         if open(path).read() == new:
-            return
+            return False
     except OSError:
         pass
     tmp = "%s.%d.tmp" % (path, os.getpid())
     with open(tmp, "w") as f:
         f.write(new)
     os.replace(tmp, path)
+    return True
 
 
 if __name__ == "__main__":
